@@ -2100,6 +2100,15 @@ def _strlen(s, st, a, ins):
     return len(s.cstr(st, a[0]))
 
 
+@builtin('@strncmp')
+def _strncmp(s, st, a, ins):
+    n = a[2]
+    if not isinstance(n, int):
+        raise Inconclusive('strncmp with symbolic length')
+    x, y = s.cstr(st, a[0])[:n], s.cstr(st, a[1])[:n]
+    return 0 if x == y else (1 if x > y else 0xFFFFFFFF)
+
+
 def _root_of(s, st, v, what):
     """a fresh real r >= 0 with r*r == v (exact algebraic square root in the real-number model)"""
     st.extra['nroots'] = st.extra.get('nroots', 0) + 1
